@@ -193,7 +193,7 @@ func (r *c20Run) step(op *c20Op) bool {
 		}
 	}
 	// a PathSet that was given a walk callback's path without a copy, and what List() hands out of it
-	if op.name == "psAdd" && op.a >= 0 && op.a < len(h.gos) && op.b >= 0 && op.b < len(h.gos) &&
+	if (op.name == "psAdd" || op.name == "psAddAllSteps") && op.a >= 0 && op.a < len(h.gos) && op.b >= 0 && op.b < len(h.gos) &&
 		(r.has(h.gos[op.b], "from:walk") || h.gos[op.b].origin == "walk") {
 		h.gos[op.a].holdsWalkPath = true
 	}
@@ -237,6 +237,14 @@ func (r *c20Run) step(op *c20Op) bool {
 			if op.name == "setElemType" || op.name == "mapPutType" {
 				r.stop = true
 			}
+			// a member of a set changed IN PLACE (through a documented transfer): it is now filed under the
+			// hash it had before, so Has / Equals / Add on that set no longer find it.  The model's
+			// `Equivalent` (equality of fingerprints) does not follow go-cty there; what comes after is
+			// outside every theorem anyway (the history is not respectful): stop here, this step included.
+			if strings.Contains(bv[i], "(set") {
+				r.stop = true
+				r.ctx.Tag("stop:set-member-changed-in-place")
+			}
 		}
 	}
 	for i, f := range ag {
@@ -245,7 +253,7 @@ func (r *c20Run) step(op *c20Op) bool {
 		}
 		if i < len(bg) && bg[i] != f {
 			g := h.gos[i]
-			receiver := (op.name == "vsAdd" || op.name == "vsRemove" || op.name == "psAdd" || op.name == "psRemove") && i == op.a
+			receiver := (op.name == "vsAdd" || op.name == "vsRemove" || op.name == "psAdd" || op.name == "psRemove" || op.name == "psAddAllSteps") && i == op.a
 			alias := target != nil && (g == target || (targetID != nil && g.ident() == targetID))
 			if receiver || alias {
 				continue
@@ -261,6 +269,11 @@ func (r *c20Run) step(op *c20Op) bool {
 				}
 				r.ctx.Fail(fl)
 				r.ctx.Tag("leak:" + fl.Sig)
+				if helper {
+					// a member of a helper set changed in place: filed under a stale hash from here on (see above)
+					r.stop = true
+					r.ctx.Tag("stop:set-member-changed-in-place")
+				}
 			} else if c20mutators[op.name] && valueChanged {
 				// seen through a value it holds (reported above)
 			} else if c20mutators[op.name] {
@@ -366,7 +379,7 @@ var c20weights = []c20w{
 	{"opAdd", 2}, {"opNegate", 1}, {"opEquals", 2}, {"opLength", 1},
 	{"newValueSet", 4}, {"vsAdd", 12}, {"vsRemove", 4}, {"vsHas", 2}, {"vsCopy", 7}, {"vsValues", 3}, {"vsLength", 1},
 	{"tupleType", 3}, {"tupleElementTypes", 3}, {"objectType", 2}, {"attributeTypes", 3},
-	{"pathIndex", 3}, {"pathGetAttr", 4}, {"pathCopy", 3}, {"newPathSet", 2}, {"psAdd", 5}, {"psHas", 2}, {"psRemove", 3}, {"psList", 5},
+	{"pathIndex", 3}, {"pathGetAttr", 4}, {"pathCopy", 3}, {"newPathSet", 2}, {"psAdd", 5}, {"psAddAllSteps", 3}, {"psHas", 2}, {"psRemove", 3}, {"psList", 5},
 	{"walkBegin", 2}, {"walkNext", 8},
 }
 
@@ -538,7 +551,7 @@ func (h *c20H) genOp(r *rand.Rand) *c20Op {
 		op.a, op.s = h.pickGo(r, "path"), str()
 	case "pathCopy":
 		op.a = h.pickGo(r, "path")
-	case "psAdd", "psHas", "psRemove":
+	case "psAdd", "psHas", "psRemove", "psAddAllSteps":
 		op.a, op.b = h.pickGo(r, "pset"), h.pickGo(r, "path")
 	case "psList":
 		op.a = h.pickGo(r, "pset")
